@@ -53,18 +53,26 @@ def enumerate_cases(tier, shard, nshards):
                 yield {"enum": True, "kind": "corpus", "i": a, "j": b, "name": "%s x %s" % (ss[a]["name"], ss[b]["name"])}
 
 
-@st.composite
-def _cases(draw):
+def _gen_from(rnd):
     from annet.annlib.netdev.views.hardware import HardwareView
     from annet.rulebook import get_rulebook
     from vf.model import shiprows, sut
-    rnd = draw(urandoms())
     model = rnd.choice(MODELS)
     rb = get_rulebook(HardwareView(model, ""))
     old = shiprows.gen_tree(rnd, rb["patching"])
     new = shiprows.mutate(rnd, rb["patching"], old)
     return {"kind": "gen", "model": model, "old": RL.plain(old), "new": RL.plain(new), "files": rnd.chance(33)}
 
+
+@st.composite
+def _cases(draw):
+    return _gen_from(draw(urandoms()))
+
+
+def fuzz_decode(fdp):
+    """coverage-guided tier: the same generator driven by fuzzer-chosen bytes (vf/core/fuzz_target.py)"""
+    from vf.model.rnd import FdpRandom
+    return _gen_from(FdpRandom(fdp))
 
 def strategy(tier):
     return _cases()
